@@ -88,9 +88,27 @@ func (c *c14Runner) hotSite(unit uint64, seed cgenSeed, pos int) (bool, string) 
 	return c.hHot, c.hSite
 }
 
+const c14FrameSite = "fuzz.Message.ReadFrom"
+
 func (c *c14Runner) runCase(unit uint64, seed cgenSeed, m cgenMut) {
 	ct := seed.ct
-	if cgenHugeLength(m) {
+	hugeFrame := false
+	if ct.T == cgenTMessage {
+		// the frame header is a plain little-endian u32: a mutated header that declares >= 2^27
+		// payload bytes goes to make() in Message.ReadFrom before anything is read
+		if w := cgenApply(seed.enc, m); len(w) >= 5 && binary.LittleEndian.Uint32(w)-1 >= 1<<27 {
+			hugeFrame = true
+			if c.killed[c14FrameSite] {
+				c.sink.Skip(1)
+				c.sink.Class(ct.Name + "|" + m.Kind + "|not executed: " + c14FrameSite + " already shown to exhaust memory")
+				return
+			}
+			c.sink.Hint(c14FrameSite)
+		}
+	}
+	if hugeFrame {
+		// fall through to execution with the hint set
+	} else if cgenHugeLength(m) {
 		hot, site := c.hotSite(unit, seed, m.Pos)
 		if os.Getenv("C14_DEBUG") != "" {
 			fmt.Fprintf(os.Stderr, "C14DBG unit=%d pos=%d mut=%s/%s hot=%v site=%q killed=%v\n", unit, m.Pos, m.Kind, m.Val, hot, site, c.killed[site])
@@ -113,6 +131,9 @@ func (c *c14Runner) runCase(unit uint64, seed cgenSeed, m cgenMut) {
 	w := cgenApply(seed.enc, m)
 	o := c14Run(ct, w)
 	c.sink.Count(1, 1)
+	if hugeFrame && o.alloc >= 1<<27 {
+		c.killed[c14FrameSite] = true
+	}
 	if cgenHugeLength(m) && o.alloc >= 1<<28 {
 		// the allocator satisfied (lazily) a declared length of >= 2^28 bytes at this make() site:
 		// unbounded allocation demonstrated there; the other huge lengths for the same site are
@@ -131,7 +152,18 @@ func (c *c14Runner) runCase(unit uint64, seed cgenSeed, m cgenMut) {
 
 // c14Site normalises "types.(*X).Decode" (a stack frame) to "types.X.Decode".
 func c14Site(s string) string {
-	return strings.NewReplacer("(*", "", ")", "").Replace(s)
+	s = strings.NewReplacer("(*", "", ")", "").Replace(s)
+	// the localiser names a decoder "<type>.Decode"; the fuzz message types' entry points are called otherwise
+	if strings.HasPrefix(s, "fuzz.") && strings.HasSuffix(s, ".Decode") {
+		switch n := strings.TrimSuffix(strings.TrimPrefix(s, "fuzz."), ".Decode"); n {
+		case "Message":
+			return c14FrameSite
+		case "SetState":
+		default:
+			return "fuzz." + n + ".UnmarshalBinary"
+		}
+	}
+	return s
 }
 
 const c14KeyLen = "declared length reaches the allocator"
@@ -183,9 +215,10 @@ func c14FrameBody(typ byte) []byte {
 	return cgenPattern(24, 9)
 }
 
-func c14Frames(li int) [][]byte {
+func c14Frames(u int) [][]byte {
 	var out [][]byte
-	for _, typ := range c14FrameTypes {
+	li := u / len(c14FrameTypes)
+	for _, typ := range c14FrameTypes[u%len(c14FrameTypes) : u%len(c14FrameTypes)+1] {
 		body := c14FrameBody(typ)
 		for _, b := range [][]byte{nil, body[:len(body)/2], body} {
 			f := binary.LittleEndian.AppendUint32(nil, c14FrameLens[li])
@@ -208,7 +241,7 @@ func c14RunFrame(c *c14Runner, frame []byte) {
 	})
 	c.sink.Count(1, 1)
 	c.judge("fuzz.Message.ReadFrom", fmt.Sprintf("frame len=%d", binary.LittleEndian.Uint32(frame)), frame, o,
-		c14Case{Type: "frame", Frame: vlib.Hex(frame)}, func() string { return "fuzz.(*Message).ReadFrom" })
+		c14Case{Type: "frame", Frame: vlib.Hex(frame)}, func() string { return c14FrameSite })
 }
 
 const c14FrameUnitBase = uint64(1) << 40
@@ -268,15 +301,15 @@ func TestVerif_C14(t *testing.T) {
 				ord++
 			})
 		}
-		// frame lattice: one unit per declared length
-		for li := range c14FrameLens {
+		// frame lattice: one unit per (declared length, type)
+		for li := 0; li < len(c14FrameLens)*len(c14FrameTypes); li++ {
 			u := c14FrameUnitBase + uint64(li)
 			if !r.Mine(uint64(li)*5+3) || u < sink.fromUnit {
 				continue
 			}
 			for fi, f := range c14Frames(li) {
 				if sink.Begin(u, uint64(fi)) {
-					sink.Hint("fuzz.(*Message).ReadFrom")
+					sink.Hint(c14FrameSite)
 					c14RunFrame(run, f)
 				}
 			}
@@ -306,7 +339,7 @@ func TestVerif_C14(t *testing.T) {
 			planned += cgenMutCount(seed.enc, full && seed.structural)
 		}
 	}
-	for li := range c14FrameLens {
+	for li := 0; li < len(c14FrameLens)*len(c14FrameTypes); li++ {
 		if r.Mine(uint64(li)*5 + 3) {
 			planned += uint64(len(c14Frames(li)))
 		}
